@@ -34,7 +34,13 @@ RULE = ("every family of the quantifier (dense, sparse with exact zeros incl. -0
         "reduced columns (tail 1e-6..1e-170 or exactly 2^-20..2^-30 of the head, both signs of the head, after exactly "
         "reduced columns), graded matrices D A D^-1) at every size n = 0..10 and a sample of them at every n = 11..40, "
         "unscaled and scaled by 2^+-40, 2^60, 2^-70, 2^+-200, 2^+-300 and random powers in between, plus all non-square "
-        "shapes 0..5 x 0..5; every call repeated on the same borrowed input; "
+        "shapes 0..5 x 0..5; near-structure families: exactly symmetric (dense, B+B^T, banded), triangular, already-Hessenberg, "
+        "scalar times exactly orthogonal (integer rotations, signed permutations, Householder), skew-symmetric, Toeplitz/circulant/"
+        "Hankel, rank one, diagonal, tiny leading sub-column entries -- each with ONE entry, one mirrored pair, a far corner, one "
+        "row/column, the strict lower part or two entries off the structure by a relative 2^-20..2^-52 (structural zeros moved to "
+        "that fraction of the largest entry), n = 3..16, scales 2^+-30, 2^+-40, random; every call repeated on the same borrowed "
+        "input and on the same numbers with another object history (from_flat padded/full, reshape of a row/column, clone_from "
+        "into larger/smaller objects, transpose+transpose_mut, TryFrom<Vec<Vec>>, map), empty shapes as N empty rows and their transposes; "
         "non-trivial = the model answers ok with n >= 3 and Q is not the identity (at least one reflector "
         "was applied); distinct = distinct request lines")
 
